@@ -82,6 +82,8 @@ def run_case(rng, idx, tier):
         kind = "N"
     if idx % 14 == 6:
         kind = "B"
+    if idx % 28 == 20:
+        kind = "W"
     try:
         if kind == "H":
             _history(c, rng, tier)
@@ -93,6 +95,8 @@ def run_case(rng, idx, tier):
             _collide(c, rng)
         elif kind == "B":
             _boundary(c, rng)
+        elif kind == "W":
+            _illformed(c, rng)
         else:
             _alias(c, rng)
     finally:
@@ -227,6 +231,12 @@ def _sweep(c, rng, idx):
         sname = rng.choice(sorted(starts))
         model = _fresh(starts[sname])
         names = rng.sample(_functions, 25)
+        if rng.random() < 0.6:
+            model, pre = _enrich(model, rng)
+            sname = sname + "+" + "+".join(pre)
+            # the functions that read the event data are all called on a model with derived columns
+            words = ("dose", "concentration", "observation", "time", "admid", "cmt", "evid", "mdv", "baseline", "individual")
+            names = [n for n in _functions if any(w in n for w in words)] + rng.sample(_functions, 15)
     called = []
     with contextlib.redirect_stdout(io.StringIO()), contextlib.redirect_stderr(io.StringIO()):
         for name in names:
@@ -250,6 +260,46 @@ def _sweep(c, rng, idx):
                 called.append(name + "!")
     c.sample = {"workload": "sweep", "start": sname, "called": called}
     c.fp = fp_of("S", sname, tuple(called))
+
+
+def _enrich(model, rng):
+    """Start models of the signature sweep that the corpus does not contain: the result of one to three model-only
+    calls that add derived data columns or components (time after dose, administration / compartment ids, ...), and
+    initial individual estimates that carry a column for an eta the model does not have (what a candidate inherits
+    from its parent's results after an eta was removed).  Runs with the contracts off (the calls are judged elsewhere)."""
+    import pandas as pd
+    import pharmpy.modeling as pm
+
+    from vp import contracts
+
+    adders = ["add_time_after_dose", "add_admid", "add_cmt", "add_time_of_last_dose", "set_dvid", "add_predictions",
+              "add_residuals", "add_pk_iiv", "set_iiv_on_ruv", "add_lag_time", "add_bioavailability",
+              "add_peripheral_compartment", "set_zero_order_absorption", "set_additive_error_model", "undrop_columns"]
+    pre = []
+    with contracts.off(), contextlib.redirect_stdout(io.StringIO()), contextlib.redirect_stderr(io.StringIO()):
+        for name in rng.sample(adders, rng.randint(1, 3)):
+            f = getattr(pm, name, None)
+            if f is None:
+                continue
+            try:
+                new = f(model)
+                if new is not None and hasattr(new, "statements"):
+                    model = new
+                    pre.append(name)
+            except Exception:
+                pass
+        if rng.random() < 0.4:
+            try:
+                etas = list(model.random_variables.etas.names)
+                ids = sorted(set(model.dataset[model.datainfo.id_column.name]))
+                cols = etas + ["ETA_GONE"]
+                rows = [[round(rng.uniform(-0.5, 0.5), 3) for _ in cols] for _ in ids]
+                iie = pd.DataFrame(rows, columns=cols, index=pd.Index(ids, name="ID"))
+                model = model.replace(initial_individual_estimates=iie)
+                pre.append("iie-with-extra-eta-column")
+            except Exception:
+                pass
+    return model, pre
 
 
 def _collide(c, rng):
@@ -373,6 +423,80 @@ def _boundary(c, rng):
     c.hit("boundary_calls", len(done))
     c.sample = {"workload": "boundary", "start": sname, "parameter": q.name, "calls": done}
     c.fp = fp_of("B", sname, q.name, tuple(done))
+
+
+def _illformed(c, rng):
+    """Ill-formed statement lists handed to Model.replace / Model.create: a first definition that reads the symbol it
+    defines (X = f(X) with no earlier X), a definition moved behind its first use, a symbol nothing defines.  The call
+    may refuse; if it returns, the returned model must be well formed (K-WF: every symbol used by a statement is a
+    parameter, random variable, data column, t or defined by an EARLIER statement)."""
+    import sympy
+    from pharmpy.model import Assignment, Model, Statements
+
+    from vp import contracts, histories
+
+    A = histories.alphabet()
+    with contracts.off():
+        starts = histories.start_models()
+        sname = rng.choice(sorted(starts))
+        model = _fresh(starts[sname])
+        for name in histories.random_history(rng, rng.randint(0, 2)):
+            try:
+                new = A[name][1](model, rng)
+                if new is not None:
+                    model = new
+            except Exception:
+                pass
+        sts = list(model.statements)
+        first_def = {}
+        for i, st in enumerate(sts):
+            if isinstance(st, Assignment):
+                first_def.setdefault(st.symbol.name, i)
+        known = set(model.parameters.names) | set(model.random_variables.names) | set(model.datainfo.names) | {"t"}
+        cands = [(n, i) for n, i in first_def.items() if n not in known]
+        variants = []
+        if cands:
+            n, i = rng.choice(cands)
+            x = sympy.Symbol(n)
+            e = sympy.sympify(sts[i].expression)
+            v1 = list(sts)
+            v1[i] = Assignment.create(x, rng.choice([x * (1 + e), x + e, sympy.exp(x) * e, sympy.Piecewise((x, e > 0), (e, True))]))
+            variants.append((f"first definition of {n} reads {n}", v1))
+            users = [j for j in range(i + 1, len(sts)) if isinstance(sts[j], Assignment) and x in sympy.sympify(sts[j].expression).free_symbols
+                     and sts[j].symbol.name != n]
+            later_defs = [j for j in range(i + 1, len(sts)) if isinstance(sts[j], Assignment) and sts[j].symbol.name == n]
+            if users and not [j for j in later_defs if j < users[0]] and all(isinstance(sts[k], Assignment) for k in range(i, users[0] + 1)):
+                j = users[0]
+                v2 = sts[:i] + sts[i + 1:j + 1] + [sts[i]] + sts[j + 1:]
+                variants.append((f"definition of {n} moved behind its first use by {sts[j].symbol.name}", v2))
+            v3 = list(sts)
+            v3[i] = Assignment.create(x, e + sympy.Symbol("UNDEFINEDSYM"))
+            variants.append((f"{n} reads UNDEFINEDSYM, which nothing defines", v3))
+    done = []
+    for what, new_sts in variants:
+        for form in ("replace", "create"):
+            c.hit("illformed_requests")
+            try:
+                with contracts.off():
+                    if form == "replace":
+                        res = model.replace(statements=Statements(tuple(new_sts)))
+                    else:
+                        res = Model.create(parameters=model.parameters, random_variables=model.random_variables,
+                                           statements=Statements(tuple(new_sts)), datainfo=model.datainfo,
+                                           dependent_variables=model.dependent_variables)
+            except Exception:
+                c.hit("illformed_request_refused")
+                done.append(f"{form}:{what}!")
+                continue
+            with contracts.off():
+                und = contracts.undefined_symbols(res) - contracts.undefined_symbols(model) - contracts.RESERVED
+            c.hit("K-WF")
+            if und:
+                c.violate(None, f"[K-WF] Model.{form} accepted a statement list in which {what}: the returned model uses "
+                                f"{sorted(und)} before / without any definition")
+            done.append(f"{form}:{what}")
+    c.sample = {"workload": "illformed", "start": sname, "requests": done}
+    c.fp = fp_of("W", sname, tuple(done))
 
 
 def _alias(c, rng):
